@@ -814,12 +814,37 @@ func checkC15(c *Ctx, n int, reps int) {
 			// sibling commands at one and the same distance from an unknown word
 			tied = g.collideTiedCommands(cs.Build[0].Struct)
 		}
+		// names that differ in letter case only (short-only options, long names): the order of a
+		// completion list must not depend on how they came out of the lookup tables
+		caseTwins := false
+		if g.chance(0.5) && cs.Build[0].Struct != nil {
+			base := *cs.Build[0].Struct
+			twins := []FieldDesc{
+				{Name: "TwinA", Exported: true, Kind: "v", Ty: "bool", Tag: `short:"j"`},
+				{Name: "TwinB", Exported: true, Kind: "v", Ty: "bool", Tag: `short:"J"`},
+				{Name: "TwinC", Exported: true, Kind: "v", Ty: "bool", Tag: `long:"zeta-twin"`},
+				{Name: "TwinD", Exported: true, Kind: "v", Ty: "bool", Tag: `long:"Zeta-twin"`},
+				{Name: "TwinE", Exported: true, Kind: "v", Ty: "bool", Tag: `long:"ZETA-twin"`},
+				{Name: "TwinF", Exported: true, Kind: "v", Ty: "bool", Tag: `short:"ĵ"`},
+				{Name: "TwinG", Exported: true, Kind: "v", Ty: "bool", Tag: `short:"Ĵ"`},
+			}
+			cs.Build[0].Struct.Fields = append(append([]FieldDesc{}, base.Fields...), twins...)
+			if probe, _ := BuildReal(cs); probe.dead {
+				cs.Build[0].Struct.Fields = base.Fields
+			} else {
+				caseTwins = true
+				c.Class("c15/names-differing-in-case-only")
+			}
+		}
 		g.addProgrammatic(cs)
 		real, _ := BuildReal(cs)
 		if real.dead {
 			continue
 		}
 		ops := []Op{}
+		if caseTwins {
+			ops = append(ops, Op{Kind: "complete", Args: []string{"-"}}, Op{Kind: "complete", Args: []string{"--"}}, Op{Kind: "complete", Args: []string{"--z"}})
+		}
 		if tied && len(real.p.Command.Args()) == 0 {
 			c.Class("c15/tied-command-names")
 			ops = append(ops, Op{Kind: "parse", Args: []string{"bet"}}, Op{Kind: "parse", Args: []string{"bot", "x"}})
